@@ -67,7 +67,7 @@ func (c *Trait) janitor() {
 func (c *Trait) invokeCleanup() {
 	// Delete expired job is skipped for UnlimitedTTL with a proof of no expirations were set before.
 	// This is an optimization to avoid full scan and make eviction checks/cleanups cheap.
-	if c.DeleteExpired != nil && (c.Config.TimeToLive != UnlimitedTTL || atomic.LoadInt64(&c.expirationsSet) > 0) {
+	if c.DeleteExpired != nil && (c.Config.TimeToLive != UnlimitedTTL || c.expirationsSet != nil && atomic.LoadInt64(c.expirationsSet) > 0) {
 		expirationBoundary := time.Now().Add(-c.Config.DeleteExpiredAfter)
 		c.DeleteExpired(expirationBoundary)
 	}
@@ -153,7 +153,9 @@ type Trait struct {
 	Stat   StatsTracker
 	Log    logTrait
 
-	expirationsSet int64
+	// expirationsSet is a pointer, so that copies of Trait (see NewTraitOf)
+	// share the counter with the janitor of the original instance.
+	expirationsSet *int64
 }
 
 // NewTrait instantiates new Trait.
@@ -182,6 +184,8 @@ func NewTrait(config Config, options ...func(t *Trait)) *Trait {
 		Config: config,
 		Stat:   config.Stats,
 		Closed: make(chan struct{}),
+
+		expirationsSet: new(int64),
 	}
 	t.Log.setup(config.Logger)
 
@@ -274,8 +278,8 @@ func (c *Trait) TTL(ctx context.Context) time.Duration {
 		ttl += time.Duration(float64(ttl) * c.Config.ExpirationJitter * (rand.Float64() - 0.5)) //nolint:gosec
 	}
 
-	if c.Config.TimeToLive == UnlimitedTTL && ttl != 0 {
-		atomic.AddInt64(&c.expirationsSet, 1)
+	if c.Config.TimeToLive == UnlimitedTTL && ttl != 0 && c.expirationsSet != nil {
+		atomic.AddInt64(c.expirationsSet, 1)
 	}
 
 	return ttl
